@@ -2122,7 +2122,7 @@ def read_lines(path_or_source, *, include=False, include_dirs=None):
         # handle existence and size of include_bytes in the reader
         elif raw_line.lower().startswith('include_bytes '):
             try:
-                _, rel_path = raw_line.split()
+                keyword, rel_path = raw_line.split()
             except ValueError:
                 raise AssemblerError('include_bytes must specify a file', line)
 
@@ -2134,8 +2134,8 @@ def read_lines(path_or_source, *, include=False, include_dirs=None):
             # grab its size
             size = os.path.getsize(include_path)
 
-            # modify the line by appending the size to the end (too hacky?)
-            line.contents = '{} {}'.format(raw_line, size)
+            # modify the line to carry the path that was found and its size (too hacky?)
+            line.contents = '{} {} {}'.format(keyword, include_path, size)
             lines.append(line)
         else:
             lines.append(line)
